@@ -358,8 +358,27 @@ type Check[C any] struct {
 // ReplayRequested returns the replay file for this process, if any.
 func ReplayRequested() string { return os.Getenv("VERIF_REPLAY") }
 
+// Journal records the case that is about to be evaluated in the file named by VERIF_JOURNAL. The
+// driver sets that variable only when it re-runs a shard whose process died from a fatal runtime error
+// (stack overflow, concurrent map writes, ...): what the file holds when the process dies again is the
+// case that kills it, and becomes the replay file.
+func Journal(property, part string, c any) {
+	if journalPath == "" {
+		return
+	}
+	cj, err := json.Marshal(c)
+	if err != nil {
+		return
+	}
+	b, _ := json.Marshal(ReplayFile{Property: property, Part: part, Error: "journal", Case: cj})
+	_ = os.WriteFile(journalPath, b, 0o644)
+}
+
+var journalPath = os.Getenv("VERIF_JOURNAL")
+
 func (ck Check[C]) runOne(c C) (rec *Rec, err error) {
 	rec = &Rec{}
+	Journal(ck.Property, ck.Part, c)
 	defer func() {
 		if p := recover(); p != nil {
 			where := panicOrigin()
